@@ -57,6 +57,16 @@ def offset_cases(rng, tier):
                 keys = [rng.pick([1, 2]) for _ in range(n)]
                 vals = [rng.pick([NULL, 0, 1, 2, 3]) for _ in range(n)]
                 out.append(dict(keys=keys, vals=vals, k=k, scale=scale, ddof=rng.randrange(2)))
+    # integer values whose group sums leave the 32-bit range (their squares leave the 64-bit range)
+    for k in (9, 10):
+        for dt in ("int64", "int32", "uint32"):
+            if dt != "int64" and k == 10:
+                continue
+            for _ in range(20 if tier == "quick" else 200):
+                n = rng.randrange(3, 12)
+                keys = [rng.pick([1, 2]) for _ in range(n)]
+                vals = [rng.pick([0, 1, 2, 3]) for _ in range(n)]
+                out.append(dict(keys=keys, vals=vals, k=k, scale=1, ddof=rng.randrange(2), dtype=dt))
     return out
 
 
@@ -74,6 +84,8 @@ def apply_cases(rng, tier):
             kenc = rng.pick(["f64", "str", "cat"])
             out.append(dict(fkind=fk, keys=[[k] for k in C.adapt_keys(rng, keys, kenc)], kenc=[kenc], vals=list(vals), mask=bool_or_none(rng, n), tf=tf,
                             vcont=rng.pick(["np", "series"]) if not tf else "np"))
+            if fk == "quantile":
+                out[-1]["q"] = rng.pick([[0.25, 0.5], [0.9, 0.1, 0.5], [0.75, 0.25], [0.5], [0.0, 1.0], [1.0, 0.0]])
     for _ in range(800 if tier == "quick" else 8000):
         n = rng.randrange(4, 14)
         keys = [rng.pick([NULL, 1, 2, 3]) for _ in range(n)]
@@ -112,6 +124,8 @@ def run_offsets(cases):
     for c in cases:
         base = 10.0 ** c["k"] if c["k"] else 0.0
         x = np.array([np.nan if v == NULL else base + v * c["scale"] for v in c["vals"]])
+        if c.get("dtype"):
+            x = np.array([int(base) + v * c["scale"] for v in c["vals"]], dtype=c["dtype"])
         r = GroupBy(np.array(c["keys"], dtype=float)).var(x, ddof=c["ddof"])
         for g, got in zip(r.index.tolist(), r.tolist()):
             vs = [Fraction(int(v) * c["scale"]) for v, k in zip(c["vals"], c["keys"]) if k == g and v != NULL]
